@@ -23,7 +23,7 @@ MUTANTS = [
     ('C02', 'typing.py', '                signal = ifftshift(signal, axes=-1)', '                signal = fftshift(signal, axes=-1)', 'shift-es1-clean-n3', 'wrong shift for odd N'),
     ('C02', 'typing.py', 'noise = fft(self.noise, axis=-1)', 'noise = fft(self.noise, axis=0)', 'transform-os2-noise-n2', 'fft axis'),
     ('C04', 'devices.py', '31: [31, 28]', '31: [31, 27]', 'prbs31', 'PRBS31 tap'),
-    ('C04', 'devices.py', 'seed = seed % 2**order if seed is not None else (1 << order) - 1', 'seed = seed % (2**order - 1) if seed is not None else (1 << order) - 1', 'prbs7', 'seed reduction modulus'),
+    ('C04', 'devices.py', 'seed = seed % (2**order) if seed is not None else (1 << order) - 1', 'seed = seed % (2**order - 1) if seed is not None else (1 << order) - 1', 'seedmod-prbs7', 'seed reduction modulus'),
     ('C05', 'devices.py', 'rz_pulse[: sps // 2] = 1', 'rz_pulse[: (sps + 1) // 2] = 1', 'rz-sps3', 'RZ mask for odd sps'),
     ('C05', 'devices.py', 'if np.abs(Vout) >= 48:', 'if np.abs(Vout) > 48:', 'validation-Vout', 'strict/non-strict range check'),
     ('C06', 'devices.py', '1j * eta / 2 * np.sin(g_t)', '1j * eta * np.sin(g_t)', 'mzm-pol1-clean-list', 'eta/2 -> eta'),
@@ -45,6 +45,9 @@ MUTANTS = [
     ('C20', 'lab.py', '([size%self.MAX_CHUNK_LEN] if size%self.MAX_CHUNK_LEN else [])', '[size%self.MAX_CHUNK_LEN]', 'get_data-requests', 'zero-length request'),
     ('C20', 'lab.py', 'channels = channels.clip(1, self.CHANNELS)[:self.CHANNELS]', 'channels = channels.clip(1, self.CHANNELS)', 'enable-chs-list5', 'more than 4 channels addressed'),
     ('C20', 'lab.py', 'signal_rx[:2*l-1]', 'signal_rx[:2*l]', 'sync-1101-sps2-d0', 'lag l admitted'),
+    ('C13', 'utils.py', '    p_OFF = p_ON/er   # OFF slot average optical power, without amplification\n\n    mu_ASE', '    p_OFF = p_ON/er**0.5   # OFF\n\n    mu_ASE', 'terms-ook-noamp', 'extinction ratio applied as amplitude ratio'),
+    ('C13', 'utils.py', 'S_th = 4 * kB * T * BW_el * R_L   # thermal noise variance, in [V^2]', 'S_th = 2 * kB * T * BW_el * R_L   # thermal', 'terms-ook-noamp', 'thermal noise halved in noise_variances'),
+    ('C16', 'devices.py', 'dSdz = -1j * (s_ * S + k * R)', 'dSdz = -1j * (s_ * S - k * R)', 'ode-uniform', 'sign of the coupling term'),
     ('C03', 'ook.py', '        if not isinstance(Tx, binary_sequence):\n            Tx = binary_sequence( Tx )', '        if not isinstance(Tx, binary_sequence) and not isinstance(Rx, binary_sequence):\n            Tx = binary_sequence( Tx )', 'counter-ook-list-bs', 'Tx conversion skipped'),
 ]
 
